@@ -290,6 +290,7 @@ func (c *fnCtx) eval(v ssa.Value) lset {
 		out.union(c.labels(x.X))
 	case *ssa.IndexAddr:
 		out.union(c.labels(x.X))
+		out = dropCredField(out, x.X, x.Index)
 	case *ssa.FieldAddr:
 		// address: labels of the object
 		out.union(c.labels(x.X))
@@ -347,7 +348,7 @@ func (c *fnCtx) eval(v ssa.Value) lset {
 			case *ssa.FreeVar:
 				out.union(c.labels(a))
 			case *ssa.IndexAddr:
-				out.union(c.labels(a.X))
+				out.union(dropCredField(c.labels(a.X).clone(), a.X, a.Index))
 			case *ssa.Global:
 			default:
 				out.union(c.labels(x.X))
@@ -401,6 +402,19 @@ func (c *fnCtx) callResult(call *ssa.Call, idx int) lset {
 		if idx == 1 {
 			out[tAtom{Kind: 'C', Idx: int(lPassword), Origin: origin(c.fn, "GetUserPass")}] = 0
 			c.e.srcSites[c.e.p.ipos(call)+" password"] = true
+			return out
+		}
+		// user name and error: what the function's summary says (an error text built from a
+		// line of the credentials file carries the password)
+	case "os.ReadFile":
+		// the credentials file: every line holds a password in its third field
+		if idx == 0 {
+			for _, k := range pathConstants(com.Args[0], 0, map[ssa.Value]bool{}) {
+				if k == "credentials" {
+					out[tAtom{Kind: 'C', Idx: int(lPassword), Origin: origin(c.fn, credOrigin)}] = 0
+					c.e.srcSites[c.e.p.ipos(call)+" password"] = true
+				}
+			}
 		}
 		return out
 	case "golang.org/x/term.ReadPassword":
@@ -951,6 +965,29 @@ func fieldLoadAliases(fn *ssa.Function, v ssa.Value) []ssa.Value {
 				}
 			}
 		}
+	}
+	return out
+}
+
+const credOrigin = "credentials file"
+
+// dropCredField: the documented format of a credentials line is `pattern username password`;
+// fields 0 and 1 of strings.Fields(line) are not secret.
+func dropCredField(l lset, slice ssa.Value, index ssa.Value) lset {
+	k, ok := constInt(index)
+	if !ok || k >= 2 {
+		return l
+	}
+	c, isCall := slice.(*ssa.Call)
+	if !isCall || c.Common().StaticCallee() == nil || shortName(c.Common().StaticCallee()) != "strings.Fields" {
+		return l
+	}
+	out := lset{}
+	for a, m := range l {
+		if a.Kind == 'C' && strings.HasSuffix(a.Origin, credOrigin) {
+			continue
+		}
+		out[a] = m
 	}
 	return out
 }
